@@ -474,9 +474,32 @@ impl<'s, const M: usize> Exec<'s, M> {
             return;
         }
         // C08: reported byte counts equal the ledger's view
-        if let Some(b) = self.bump.as_ref() {
-            let ab = b.allocated_bytes();
-            let abim = b.allocated_bytes_including_metadata();
+        // the metadata query walks the chunk list (and checks its own invariants in debug builds):
+        // on a corrupted arena it may panic, which must be a verdict, not the death of the worker
+        let queried = match self.bump.as_ref() {
+            Some(b) => simalloc::quiet_call(|| std::panic::catch_unwind(std::panic::AssertUnwindSafe(|| (b.allocated_bytes(), b.allocated_bytes_including_metadata())))).map_err(|p| {
+                let m = panic_message(&p);
+                let _g = simalloc::harness_scope();
+                drop(p);
+                m
+            }),
+            None => Ok((0, 0)),
+        };
+        if let Err(msg) = queried {
+            let slug = msg_slug(&msg);
+            if let Some(f) = self.opts.focus {
+                if f != "C08" {
+                    // whatever property this workload is about: the step left an arena whose own
+                    // accounting query trips over its state
+                    let kind = self.cur_kind;
+                    self.violate(f, "arena-corrupt-after-step", kind, format!("allocated_bytes_including_metadata panicked: {}", msg));
+                }
+            }
+            self.violate("C08", "accounting-query-panicked", &slug, msg);
+            self.violate("C09", "method-panicked-internally", &slug, String::new());
+            return;
+        }
+        if let (Some(_), Ok((ab, abim))) = (self.bump.as_ref(), queried) {
             let sum = self.held_sum();
             let n = self.held.len();
             let when = if self.just_reset { "after-reset" } else { "steady" };
@@ -581,7 +604,11 @@ impl<'s, const M: usize> Exec<'s, M> {
         if let Some((&pa, pb)) = self.blocks.range(..=addr).next_back() {
             if pa + pb.size > addr {
                 let kept = pb.kept_by_init;
-                self.violate("C01", "overlap", "", format!("new block overlaps a live block of {} bytes at offset {}", pb.size, addr - pa));
+                let pbsize = pb.size;
+                if raw && self.opts.focus == Some("C12") {
+                    self.violate("C12", "overlaps-live-block", "", format!("block from the Allocator interface overlaps a live block of {} bytes", pbsize));
+                }
+                self.violate("C01", "overlap", "", format!("new block overlaps a live block of {} bytes at offset {}", pbsize, addr - pa));
                 if kept {
                     self.violate("C11", "block-kept-by-initialiser-handed-out-again", "", "a block the failing initialiser allocated and kept overlaps a later allocation".into());
                 }
@@ -594,6 +621,9 @@ impl<'s, const M: usize> Exec<'s, M> {
                 let detail = format!("new block of {} bytes at chunk offset {} runs into a live block of {} bytes at chunk offset {} (align {})", size, addr - cuser, nb.size, na.wrapping_sub(cuser), nb.align);
                 if kept {
                     self.violate("C11", "block-kept-by-initialiser-handed-out-again", "", "a block the failing initialiser allocated and kept overlaps a later allocation".into());
+                }
+                if raw && self.opts.focus == Some("C12") {
+                    self.violate("C12", "overlaps-live-block", "", "block from the Allocator interface runs into a live block".into());
                 }
                 self.violate("C01", "overlap", "", detail);
                 return false;
